@@ -38,6 +38,10 @@ import (
 type Program struct {
 	Searchers []string `json:"searchers"`      // vamana | vamana-filter | text | string
 	Writer    string   `json:"writer"`         // none | ins2 | updvec | del1 | del-ins
+	// Writer2: a second writer thread with one batch (two-writer programs have no searchers and one
+	// batch per writer): ins57-other | upd57 | del57 | ins2.  The storage engine admits one write
+	// transaction at a time, so the outcome must be that of ONE of the two serial orders.
+	Writer2 string `json:"writer2,omitempty"`
 	Start     string   `json:"start"`          // cold | warm | partial
 	GetEvery  int      `json:"getEvery"`       // every n-th Get of a read transaction is a scheduling point
 	Free      bool     `json:"free,omitempty"` // race pass: plain goroutines under the race detector, no scheduler
@@ -148,6 +152,14 @@ func writerBatches(kind string) []sl.Op {
 		// an insert that meets a storage error when the counters are written,
 		// i.e. after the index pipeline has applied the batch to the shared cache
 		return []sl.Op{{Name: "ins57,58 !storage-fault", Kind: "ins", Ids: []int{57, 58}, Docs: []sl.Doc{doc(57), doc(58)}}}
+	case "ins57-other":
+		// shares id 57 with ins2, under another document, and brings a point of its own
+		return []sl.Op{{Name: "ins57(other doc),60", Kind: "ins", Ids: []int{57, 60}, Docs: []sl.Doc{{prop: []float32{2.25, 1}, "cat": "c0", "txt": "lazy dog", "rev": int64(7)}, doc(60)}}}
+	case "upd57":
+		// skipped if 57 is unknown when it runs, applied if ins2 committed first
+		return []sl.Op{{Name: "upd57,2(rev)", Kind: "upd", Ids: []int{57, 2}, Docs: []sl.Doc{{"rev": int64(5)}, {"rev": int64(5)}}}}
+	case "del57":
+		return []sl.Op{{Name: "del57,3", Kind: "del", Ids: []int{57, 3}}}
 	case "del-ins":
 		return []sl.Op{{Name: "del3", Kind: "del", Ids: []int{3}}, {Name: "ins59(reuses node id)", Kind: "ins", Ids: []int{59}, Docs: []sl.Doc{doc(59)}}}
 	}
@@ -288,6 +300,12 @@ func run(raw json.RawMessage, prefix []string) (*vsched.Trace, []schedlib.V, str
 	var outcome []string
 	answered := map[int][]int{} // searcher index -> sorted ids it returned
 	batches := writerBatches(p.Writer)
+	batches2 := writerBatches(p.Writer2)
+	two := len(batches2) > 0
+	if two && (len(batches) != 1 || len(batches2) != 1 || len(p.Searchers) != 0) {
+		panic("two-writer programs: one batch per writer, no searchers")
+	}
+	twoGot := make([]*sl.Result, 2)
 	var freeWG sync.WaitGroup
 	spawn := func(sc *vsched.Sched, name string, fn func()) {
 		if p.Free {
@@ -370,7 +388,19 @@ func run(raw json.RawMessage, prefix []string) (*vsched.Trace, []schedlib.V, str
 				hmu.Unlock()
 			})
 		}
-		if len(batches) > 0 {
+		if two {
+			for w, bs := range [][]sl.Op{batches, batches2} {
+				w, op := w, bs[0]
+				spawn(sc, []string{"W", "W2"}[w], func() {
+					in := &sl.Inst{Shard: s}
+					vsched.Point("write-begin " + op.Name)
+					got := in.ApplyImpl(op)
+					hmu.Lock()
+					twoGot[w] = &got
+					hmu.Unlock()
+				})
+			}
+		} else if len(batches) > 0 {
 			spawn(sc, "W", func() {
 				in := &sl.Inst{Shard: s}
 				for _, op := range batches {
@@ -432,9 +462,50 @@ func run(raw json.RawMessage, prefix []string) (*vsched.Trace, []schedlib.V, str
 		for i := 1; i <= basePoints; i++ {
 			uni = append(uni, i)
 		}
+		uni = append(uni, 60)
 		o := &sl.Obs{}
-		final.PointsBattery(o, model, uni)
-		final.GraphCheck(o, model, prop, *schema()[prop].VectorVamana)
+		if two {
+			// one write transaction at a time: what the two calls reported and what is stored must be
+			// what ONE of the two serial orders gives (brute force over the two orders)
+			ops := []sl.Op{batches[0], batches2[0]}
+			var why []string
+			found := false
+			for _, ord := range [][2]int{{0, 1}, {1, 0}} {
+				m := sl.NewModel(schema(), 1<<20)
+				for k, v := range model.Docs {
+					m.Docs[k] = v
+				}
+				var bad []string
+				for _, w := range ord {
+					exp := m.Apply(ops[w])
+					if twoGot[w] == nil {
+						bad = append(bad, ops[w].Name+": did not return")
+					} else if sig, detail := sl.CompareResult(ops[w], exp, *twoGot[w]); sig != "" {
+						bad = append(bad, sig+": "+detail)
+					}
+				}
+				oo := &sl.Obs{}
+				final.PointsBattery(oo, m, uni)
+				final.GraphCheck(oo, m, prop, *schema()[prop].VectorVamana)
+				for _, v := range oo.Viols {
+					bad = append(bad, "final-state:"+v.Sig+": "+v.Detail)
+				}
+				if len(bad) == 0 {
+					found = true
+					hmu.Lock()
+					outcome = append(outcome, fmt.Sprintf("serial-order:%s-then-%s", ops[ord[0]].Name, ops[ord[1]].Name))
+					hmu.Unlock()
+					break
+				}
+				why = append(why, fmt.Sprintf("[%s then %s] %s", ops[ord[0]].Name, ops[ord[1]].Name, strings.Join(bad, " ; ")))
+			}
+			if !found {
+				fail("two-writers-match-no-serial-order", "the results of the two concurrent write calls and the stored state afterwards equal neither serial order: %s", clipStr(strings.Join(why, "  ||  "), 3000))
+			}
+		} else {
+			final.PointsBattery(o, model, uni)
+			final.GraphCheck(o, model, prop, *schema()[prop].VectorVamana)
+		}
 		for _, v := range o.Viols {
 			fail("final-state:"+v.Sig, "%s", v.Detail)
 		}
@@ -493,6 +564,13 @@ func run(raw json.RawMessage, prefix []string) (*vsched.Trace, []schedlib.V, str
 	}
 	sort.Strings(outcome)
 	return tr, viols, strings.Join(outcome, ";")
+}
+
+func clipStr(s string, n int) string {
+	if len(s) > n {
+		return s[:n] + "…"
+	}
+	return s
 }
 
 // curGoid returns the id of the calling goroutine (parsed from its stack
@@ -605,13 +683,21 @@ func master(cfg *harness.Config, rep *harness.Report) {
 			programs = append(programs, q) // bound 0 in the quick tier, bound 1 in the thorough tier (~24 k executions each)
 		}
 	}
+	// two writers on one shard (the shard manager hands a shard to any number of requests; the storage
+	// engine serialises their write transactions): batches that share an id
+	var twoW []any
+	for _, start := range []string{"cold", "warm"} {
+		for _, w2 := range []string{"ins57-other", "upd57", "del57", "ins2"} {
+			twoW = append(twoW, Program{Writer: "ins2", Writer2: w2, Start: start, GetEvery: 8})
+		}
+	}
 	coreAll := mk([]string{"cold", "warm"}, []string{"none", "updvec", "del-ins"}, sets, 8)
 	type phase struct {
 		name     string
 		programs []any
 		bound    int
 	}
-	phases := []phase{{"all programs, bound 0", programs, 0}, {"core programs (cold/warm x none/delete+insert x two graph-search pairs), bound 1", core, 1}}
+	phases := []phase{{"all programs, bound 0", programs, 0}, {"two writers whose batches share an id, bound 1", twoW, 1}, {"core programs (cold/warm x none/delete+insert x two graph-search pairs), bound 1", core, 1}}
 	if !cfg.Quick() {
 		var three []any
 		for _, start := range []string{"cold", "warm"} {
@@ -619,7 +705,7 @@ func master(cfg *harness.Config, rep *harness.Report) {
 				three = append(three, Program{Searchers: []string{"vamana", "vamana-filter", "vamana"}, Writer: w, Start: start, GetEvery: 1})
 			}
 		}
-		phases = []phase{{"all programs, bound 0", programs, 0}, {"all programs, bound 1", programs, 1}, {"three searchers, every Get a point, bound 1", three, 1}, {"core programs, bound 2", coreAll, 2}}
+		phases = []phase{{"all programs, bound 0", programs, 0}, {"two writers whose batches share an id, bound 2", twoW, 2}, {"all programs, bound 1", programs, 1}, {"three searchers, every Get a point, bound 1", three, 1}, {"core programs, bound 2", coreAll, 2}}
 	}
 	if pj := cfg.Extra["program"]; pj != "" {
 		var one Program
